@@ -756,6 +756,12 @@ def mode_contracts(reg):
             hit = VExt("RoundKeys")
         return [(miss, NONE), (st, hit)]
 
+    # loggers (ASSUMED, PY-LOG: logging has no effect on the computation and does not raise)
+    reg.ext_models["logging.getLogger"] = lambda ex, st, args, kwargs, node: [(st, VExt("Logger"))]
+    for meth in ("debug", "info", "warning", "warn", "error", "exception", "critical", "log", "setLevel", "addHandler"):
+        reg.method_models[("Logger", meth)] = lambda ex, st, o, a, k, n: [(st, NONE)]
+    reg.method_models[("Logger", "isEnabledFor")] = lambda ex, st, o, a, k, n: [(st, VBool(z3.Bool(fresh_name("log_enabled"))))]
+    reg.method_models[("Logger", "getChild")] = lambda ex, st, o, a, k, n: [(st, VExt("Logger"))]
     reg.method_models[("RKCache", "get")] = m_cache_get
     reg.method_models[("RKCache", "move_to_end")] = lambda ex, st, o, a, k, n: [(st, NONE)]
     reg.method_models[("RKCache", "popitem")] = lambda ex, st, o, a, k, n: [(st, VUnk("evicted"))]
@@ -820,10 +826,12 @@ def mode_contracts(reg):
 
     out.append(role_contract_for(
         "_pkcs7_unpad", params=sig_params(rq("_pkcs7_unpad"), {"data": DATA, "block_size": p_const(16)}),
+        requires=lambda c: c.args["data"].length % 16 == 0,
         ensures=[("removes-exactly-the-padding", unpad_post)],
         result_maker=fresh_bytes("unpadded"),
         raises=[Raises("ValueError", when=lambda c: z3.And(c.args["data"].length > 0, z3.Not(valid_padding(c))))],
-        note="empty input is returned unchanged; invalid padding (p not in 1..16, longer than the data, or bytes != p) is a ValueError",
+        note="domain: block-aligned data (what CryptAES.decrypt hands over: call-pre VC at the call site); empty input is returned unchanged; "
+             "invalid padding (p not in 1..16 or last p bytes != p) is a ValueError",
     ))
     # ---- block functions seen from the drivers: opaque symbols (see module docstring of c20_modes)
     def chunks_returns(c):
